@@ -93,7 +93,7 @@ macro_rules! c10_max_m {
         #[kani::stub(a5::core::serialization::get_resolution, res_stub)]
         #[kani::stub(a5::core::serialization::cell_to_parent, parent_model)]
         pub fn $name() {
-            max_body::<$n>($lo, $hi, true);
+            max_body::<$n>($lo, $hi, $n <= 4);
         }
     };
 }
@@ -358,4 +358,14 @@ pub fn c10_split_2m() {
 #[kani::stub(a5::core::serialization::cell_to_parent, parent_model)]
 pub fn c10_split_3m() {
     split_body::<3>();
+}
+
+#[kani::proof]
+#[kani::unwind(14)]
+#[kani::stub(alloc::fmt::format, fmt_stub)]
+#[kani::stub(core::slice::sort::unstable::sort, sort_inner_small)]
+#[kani::stub(a5::core::serialization::get_resolution, res_stub)]
+#[kani::stub(a5::core::serialization::cell_to_parent, parent_model)]
+pub fn c10_split_1m() {
+    split_body::<1>();
 }
